@@ -14,7 +14,10 @@ balance live in one entry); increase uses saturating_add, decrease uses checked_
 error; the component is chosen by is_retryable_message() and the untouched component is carried over
 from the value read; every success path of the four functions writes the entry back;
 (3) coins_to_spend: add_* uses replace with `is_some` => error, remove_* uses take with `is_none` =>
-error, on the same table with keys from the same constructor; (4) error discipline in
+error, on the same table with keys from the same constructor, and every successful return of add_* / remove_*
+has passed that index operation (no resource is left out by an early return); (5) in process_executor_events
+every non-error way out of a variant's arm (next event or return) has passed each of the arm's index
+operations; (4) error discipline in
 process_executor_events: every event passes update_event_based_indexation, an
 IndexationError::StorageError aborts the block (error exit), and every table write's error propagates.
 """
@@ -112,6 +115,9 @@ def check(ctx):
             ctx.add(f"3.{rem}-take", "MIRROR", {(t, o) for t, o, c in rops} == {("CoinsToSpendIndex", "take")}, f"{rem}: {sorted((t, o) for t, o, c in rops)}", sites=[c.where() for _, _, c in rops], site_key=rem)
             ctx.test_leads_to_error(f"3.{add}-duplicate-rejects", ab, ctx.call_tests(ab, "core::option::Option::is_some"), truth=True)
             ctx.test_leads_to_error(f"3.{rem}-missing-rejects", rb, ctx.call_tests(rb, "core::option::Option::is_none"), truth=True)
+            # no early success: an unspent resource is always entered, a spent one always taken out
+            ctx.must_pass(f"3.{add}-always-enters-the-index", ab, [c for _, _, c in aops], detail=f"every successful return of {add} has passed the index write (no resource is left out)")
+            ctx.must_pass(f"3.{rem}-always-leaves-the-index", rb, [c for _, _, c in rops], detail=f"every successful return of {rem} has passed the index removal")
             ka = [c.path for c in ab.calls if c.bb in ab.live and "CoinsToSpendIndexKey::from_" in c.path]
             kr = [c.path for c in rb.calls if c.bb in rb.live and "CoinsToSpendIndexKey::from_" in c.path]
             ctx.add(f"3.{add}-{rem}-same-key", "MIRROR", bool(ka) and ka == kr, f"same key constructor on both sides: {ka} / {kr}", sites=ka + kr, site_key=add + rem)
@@ -141,3 +147,24 @@ def check(ctx):
         oks = ctx.ok_return_blocks(ub)
         for callee in (f"{BAL}::update", f"{CTS}::update"):
             ctx.after_ok(f"4.{callee.split('::')[-2]}-error-propagates", ctx.one_call(ub, callee), oks)
+
+    # -- 5. no event is skipped inside its arm: every non-error way out of the arm has applied each index operation --
+    with ctx.clause("5.arm-operations-on-every-path"):
+        pb = F.unit(f"{WS}::process_executor_events").root
+        nxt = ctx.one_call(pb, "core::iter::traits::iterator::Iterator::next")
+        want = {"MessageImported": {("OwnedMessageIds", "insert")}, "MessageConsumed": {("OwnedMessageIds", "remove"), ("SpentMessages", "insert")},
+                "CoinCreated": {("OwnedCoins", "insert")}, "CoinConsumed": {("OwnedCoins", "remove")},
+                "ForcedTransactionFailed": {("RelayedTransactionStatuses", "insert")}}
+        allops = tops(ctx, pb)
+        sws = ctx.enum_switches(pb, EVENT)
+        ctx.expect_sites("5.event-match", [f"bb{bb}" for bb, _, _ in sws], at_least=1, what="match on executor::Event in process_executor_events")
+        errs = pb.error_blocks()
+        arms = ctx.match_arms(pb, EVENT)
+        for v, exp in want.items():
+            idx = ctx.variant_index(EVENT, v)
+            ts = [ctx._edge_target(pb, (bb, lab)) for (bb, sw, _) in sws for lab in sw.edge_for_value(idx)]
+            for (t, o) in sorted(exp):
+                blocks = [c.bb for (t2, o2, c) in allops if (t2, o2) == (t, o) and c.bb in arms.get(v, set())]
+                ok = bool(ts) and bool(blocks) and pb.path(ts, pb.return_blocks() + [nxt.bb], cut_blocks=set(errs) | set(blocks)) is None
+                ctx.add(f"5.{v}-{t}-{o}-on-every-path", "MPT", ok, f"Event::{v}: every non-error way out of the arm (next event or return) has passed {t}.{o}",
+                        sites=[f"bb{b}" for b in blocks], site_key=f"{v}:{t}:{o}")
